@@ -52,3 +52,27 @@ def read_records(path, skip=0):
     except FileNotFoundError:
         pass
     return out[skip:]
+
+
+REPO_TEST_FILES = ["test_downscaling.py", "test_dyadic_pyramid.py", "test_sharded_base.py",
+                   "test_sharded_file_accessor.py", "test_sharded_http_accessor.py",
+                   "test_precomputed_io.py", "test_chunk_encoding.py"]
+
+
+def run_repo_tests(report, files=REPO_TEST_FILES, timeout=900):
+    """The repository's own unit tests as one more workload for the runtime contracts: the
+    tests of the CURRENT tree run in a child process with the contracts attached.
+    -> (returncode, summary line, lines mentioning a broken contract)"""
+    repo = os.environ.get("NGS_VERIF_REPO", "/repo")
+    env = dict(os.environ, TQDM_DISABLE="1", NGS_VERIF_CHILD_REPORT=report)
+    env["PYTHONPATH"] = SITE + os.pathsep + env.get("PYTHONPATH", "")
+    paths = [os.path.join(repo, "unit_tests", f) for f in files]
+    paths = [p for p in paths if os.path.isfile(p)]
+    if not paths:
+        return None, "no unit tests found", []
+    p = subprocess.run([sys.executable, "-W", "ignore", "-m", "pytest", "-q", "-p",
+                        "no:cacheprovider", "--timeout=600", "-x", "--no-header", *paths],
+                       capture_output=True, text=True, timeout=timeout, env=env, cwd=repo)
+    out = p.stdout.splitlines()
+    broken = [line for line in out if "ContractBroken" in line]
+    return p.returncode, (out[-1] if out else ""), broken[:5]
